@@ -122,6 +122,15 @@ struct verif_atomic : ::verif::real_atomic<T> {
     template<class A> T operator|=(A v) noexcept { return fetch_or(v) | v; }
     template<class A> T operator^=(A v) noexcept { return fetch_xor(v) ^ v; }
 };
+// std::atomic_flag (tbbmalloc's MallocMutex, __TBB_InitOnce): an aggregate with the same brace initialisation (ATOMIC_FLAG_INIT) whose
+// test_and_set / clear are schedule points - a spin lock built on it must never be spun on while its holder is parked
+struct verif_atomic_flag {
+    ::std::atomic_flag f;
+    bool test_and_set(memory_order o = memory_order_seq_cst) noexcept { verif_atomic_hook(this, 2, (int)o, (unsigned)sizeof(f)); if (verif_tso_active) verif_tso_flush(); return f.test_and_set(o); }
+    bool test_and_set(memory_order o = memory_order_seq_cst) volatile noexcept { return const_cast<verif_atomic_flag*>(this)->test_and_set(o); }
+    void clear(memory_order o = memory_order_seq_cst) noexcept { verif_atomic_hook(this, 1, (int)o, (unsigned)sizeof(f)); if (verif_tso_active) verif_tso_flush(); f.clear(o); }
+    void clear(memory_order o = memory_order_seq_cst) volatile noexcept { const_cast<verif_atomic_flag*>(this)->clear(o); }
+};
 inline void verif_atomic_thread_fence(memory_order o) noexcept {
     verif_atomic_hook(nullptr, 4, (int)o, 0);
     if (verif_tso_active && o == memory_order_seq_cst) verif_tso_flush();
@@ -137,4 +146,5 @@ extern "C" long verif_syscall(long nr, ...);
 extern "C" int verif_pthread_create(pthread_t*, const pthread_attr_t*, void* (*)(void*), void*);
 #define pthread_create verif_pthread_create
 #define atomic_thread_fence verif_atomic_thread_fence
+#define atomic_flag verif_atomic_flag
 #define atomic verif_atomic
